@@ -16,6 +16,16 @@ def run(ck, tier, seed):
         ck.violation("TLC: %s violated in SegmentApi" % r0.violation, {"why": "SegmentApi model", "trace": vlib.tlc_error_trace(r0.out)})
         return
     ck.add_tlc("SegmentApi(BFS N=4)", r0)
+    # the design that has to meet that contract: the link surgery of one justify call, pointer by pointer
+    rj = vlib.tlc("JustifyLinks.tla", "JustifyLinks.cfg", timeout=3000, coverage=False)
+    if rj.violation:
+        ck.violation("TLC: %s violated in JustifyLinks" % rj.violation, {"why": "JustifyLinks model", "trace": vlib.tlc_error_trace(rj.out)})
+        return
+    ck.add_tlc("JustifyLinks(N=5, marker linking as in the code)", rj)
+    for neg, want in (("JustifyLinks_neg.cfg", ("NoDangling", "ChainRestored")), ("JustifyLinks_neg2.cfg", ("MarkersReachable",))):
+        rn = vlib.tlc("JustifyLinks.tla", neg, timeout=900, coverage=False)
+        if rn.violation not in want:
+            raise vlib.Broken("negative control %s (marker linking as before repair f6b8e79a) not refuted: %r" % (neg, rn.violation))
     raw = os.path.join(tmp, "beh_raw.ndjson")
     r = vlib.tlc("SegmentApi.tla", "SegmentApi_sim.cfg", out_file=raw, simulate=100, depth=7, seed=seed, workers=4, timeout=3000, coverage=False)
     if r.violation:
